@@ -50,6 +50,12 @@ Theorem C14_registry_order_independent : forall ds ds' r r',
 Proof. exact registry_content_order_independent_l. Qed.
 Print Assumptions C14_registry_order_independent.
 
+(* ... and so is whether the constructor raises its ValueError (two different usable classes for one pair) *)
+Theorem C14_constructor_failure_order_independent : forall ds ds',
+  Permutation ds ds' -> build ds = None -> build ds' = None.
+Proof. exact build_failure_order_independent_l. Qed.
+Print Assumptions C14_constructor_failure_order_independent.
+
 (* identify_orientation: for a <> b the two directions never get the same answer, and its two ValueErrors are
    unreachable; "left" is exactly framework() -> other_framework() *)
 Theorem C14_orientation_total : forall d a b, a <> b ->
